@@ -22,6 +22,25 @@ theorem good_init (st : List Bool) (v : List (Nat × Bool)) :
     Good { statics := st, varying := v } := by
   constructor <;> simp
 
+theorem good_del (s s' : MSt) (ns : Nat) (g : Good s) (h : step true s (.nsDel ns) = some s') : Good s' := by
+  have sub : ∀ (t : MSt), t.flag = s.flag → t.ea = s.ea → t.statics = s.statics → t.inflight = s.inflight →
+      (∀ p ∈ t.varying, p ∈ s.varying) → Good t := by
+    intro t hf he hs hi hv
+    constructor
+    · rw [hf, he]; exact g.flag_iff
+    · rw [he]; exact g.notRangeDone
+    · rw [he, hs]; exact g.statics
+    · intro todo ht p hp; rw [he] at ht; rw [hi]; exact g.ranging todo ht p (hv p hp)
+    · intro hd p hp; rw [he] at hd; rw [hi]; exact g.finished hd p (hv p hp)
+  simp only [step] at h
+  split at h
+  · simp at h
+  · split at h
+    · simp only [Option.some.injEq] at h; subst h
+      exact sub _ rfl rfl rfl rfl (fun p hp => (List.mem_filter.mp hp).1)
+    · simp only [Option.some.injEq] at h; subst h
+      exact sub _ rfl rfl rfl rfl (fun p hp => hp)
+
 theorem good_step (s s' : MSt) (a : MAct) (g : Good s) (h : step true s a = some s') : Good s' := by
   cases a with
   | ea =>
@@ -102,7 +121,8 @@ theorem good_step (s s' : MSt) (a : MAct) (g : Good s) (h : step true s a = some
   | nsStore ns =>
     simp only [step] at h
     split at h
-    · simp at h
+    · simp only [Option.some.injEq] at h; subst h
+      exact ⟨g.flag_iff, g.notRangeDone, g.statics, g.ranging, g.finished⟩
     · simp only [Option.some.injEq] at h; subst h
       constructor
       · exact g.flag_iff
@@ -156,6 +176,145 @@ theorem good_step (s s' : MSt) (a : MAct) (g : Good s) (h : step true s a = some
           · exact Or.inl h
           · exact Or.inr ((List.mem_erase_of_ne hne).mpr h)
     · simp at h
+  | nsDel ns => exact good_del s s' ns g h
+
+theorem good_of_start (s : MSt) (h1 : s.ea = .start) (h2 : s.flag = false) : Good s := by
+  constructor <;> simp [h1, h2]
+
+/-! ## Namespaces that go away and come back: the two indexes stay in step -/
+
+theorem keys_enableNs (v : List (Nat × Bool)) (ns : Nat) :
+    (enableNs v ns).map (·.1) = v.map (·.1) := by
+  induction v with
+  | nil => rfl
+  | cons p rest ih =>
+    simp only [enableNs, List.map_cons] at ih ⊢
+    by_cases hp : p.1 = ns <;> simp [hp, ih]
+
+/-- Invariant: every live matching namespace has an entry in `VaryingInformers`, and every entry
+there has a cancel function or a callback in flight that is about to store one (so the delete
+callback, which looks at `cancelForNs`, never skips a namespace that has informers). -/
+structure Tracks (s : MSt) : Prop where
+  watched : ∀ n ∈ s.live, n ∈ keys s
+  cancelIdx : ∀ n ∈ keys s, n ∈ s.cancel ∨ n ∈ s.inflight
+
+theorem tracks_initial (st : List Bool) (nss : List Nat) : Tracks (initial st nss) := by
+  constructor
+  · intro n hn; simp [keys, initial] at hn ⊢; exact hn
+  · intro n hn; simp [keys, initial] at hn ⊢; exact hn
+
+theorem tracks_step (fx : Bool) (s s' : MSt) (a : MAct) (g : Tracks s) (h : step fx s a = some s') :
+    Tracks s' := by
+  have keep : ∀ (t : MSt), keys t = keys s → t.live = s.live → t.cancel = s.cancel →
+      t.inflight = s.inflight → Tracks t := by
+    intro t hk hl hc hi
+    exact ⟨by rw [hk, hl]; exact g.watched, by rw [hk, hc, hi]; exact g.cancelIdx⟩
+  cases a with
+  | ea =>
+    simp only [step] at h
+    split at h
+    · split at h <;> (simp only [Option.some.injEq] at h; subst h; exact keep _ rfl rfl rfl rfl)
+    · simp only [Option.some.injEq] at h; subst h; exact keep _ rfl rfl rfl rfl
+    · simp only [Option.some.injEq] at h; subst h; exact keep _ rfl rfl rfl rfl
+    · split at h <;> (simp only [Option.some.injEq] at h; subst h; exact keep _ rfl rfl rfl rfl)
+    · simp only [Option.some.injEq] at h; subst h
+      exact keep _ (by simp [keys, keys_enableNs]) rfl rfl rfl
+    · simp only [Option.some.injEq] at h; subst h; exact keep _ rfl rfl rfl rfl
+    · simp at h
+  | visitExtra ns =>
+    simp only [step] at h
+    split at h
+    · simp only [Option.some.injEq] at h; subst h
+      exact keep _ (by simp [keys, keys_enableNs]) rfl rfl rfl
+    · simp at h
+  | nsStore ns =>
+    simp only [step] at h
+    split at h
+    · rename_i hin
+      simp only [Option.some.injEq] at h; subst h
+      constructor
+      · intro n hn
+        simp only [List.mem_cons] at hn
+        rcases hn with rfl | hn
+        · simp only [List.any_eq_true, beq_iff_eq] at hin
+          obtain ⟨p, hp, rfl⟩ := hin
+          exact List.mem_map.mpr ⟨p, hp, rfl⟩
+        · exact g.watched n hn
+      · exact g.cancelIdx
+    · simp only [Option.some.injEq] at h; subst h
+      constructor
+      · intro n hn
+        simp only [List.mem_cons] at hn
+        simp only [keys, List.map_append, List.mem_append, List.map_cons, List.map_nil, List.mem_singleton]
+        rcases hn with rfl | hn
+        · right; trivial
+        · left; exact g.watched n hn
+      · intro n hn
+        simp only [keys, List.map_append, List.mem_append, List.map_cons, List.map_nil, List.mem_singleton] at hn
+        rcases hn with hn | rfl
+        · rcases g.cancelIdx n hn with h | h
+          · exact Or.inl h
+          · exact Or.inr (List.mem_append_left _ h)
+        · right; simp
+  | nsRead ns =>
+    simp only [step] at h
+    split at h
+    · simp only [Option.some.injEq] at h; subst h
+      have hk : (if s.flag = true then enableNs s.varying ns else s.varying).map (·.1) = s.varying.map (·.1) := by
+        by_cases hf : s.flag = true <;> simp [hf, keys_enableNs]
+      constructor
+      · intro n hn
+        show n ∈ (if s.flag = true then enableNs s.varying ns else s.varying).map (·.1)
+        rw [hk]; exact g.watched n hn
+      · intro n hn
+        have hn' : n ∈ keys s := by
+          have : n ∈ (if s.flag = true then enableNs s.varying ns else s.varying).map (·.1) := hn
+          rw [hk] at this; exact this
+        by_cases hne : n = ns
+        · left; simp [hne]
+        · rcases g.cancelIdx n hn' with h | h
+          · left; exact List.mem_append_left _ h
+          · right; exact (List.mem_erase_of_ne hne).mpr h
+    · simp at h
+  | nsDel ns =>
+    simp only [step] at h
+    split at h
+    · simp at h
+    · rename_i hinf
+      have hinf : s.inflight = [] := by simpa using hinf
+      split at h
+      · simp only [Option.some.injEq] at h; subst h
+        constructor
+        · intro n hn
+          simp only [List.mem_filter, bne_iff_ne, ne_eq, decide_eq_true_eq] at hn
+          have := g.watched n hn.1
+          simp only [keys, List.mem_map] at this ⊢
+          obtain ⟨p, hp, rfl⟩ := this
+          exact ⟨p, List.mem_filter.mpr ⟨hp, by simpa using hn.2⟩, rfl⟩
+        · intro n hn
+          simp only [keys, List.mem_map, List.mem_filter] at hn
+          obtain ⟨p, ⟨hp, hne⟩, rfl⟩ := hn
+          rcases g.cancelIdx p.1 (List.mem_map.mpr ⟨p, hp, rfl⟩) with h | h
+          · left; exact List.mem_filter.mpr ⟨h, hne⟩
+          · rw [hinf] at h; simp at h
+      · rename_i hc
+        simp only [Option.some.injEq] at h; subst h
+        constructor
+        · intro n hn
+          simp only [List.mem_filter] at hn
+          exact g.watched n hn.1
+        · exact g.cancelIdx
+
+theorem tracks_run (fx : Bool) (s : MSt) (sched : List MAct) (g : Tracks s) : Tracks (run fx s sched) := by
+  unfold run
+  induction sched generalizing s with
+  | nil => exact g
+  | cons a rest ih =>
+    simp only [List.foldl_cons]
+    apply ih
+    cases h : step fx s a with
+    | none => simpa using g
+    | some s' => simpa using tracks_step fx s s' a g h
 
 theorem good_run (s : MSt) (sched : List MAct) (g : Good s) : Good (run true s sched) := by
   unfold run
